@@ -71,12 +71,23 @@ def tok(f):
     return "l:" + ",".join(hx(n.encode("utf-8")) for n in v)
 
 
-def real_encode(Message, fields):
+def real_encode(Message, fields, peek=None):
+    """``peek``: optional PRNG — the partially built message is observed (asbytes()/bytes()/get_so_far-style
+    calls) between writes, as callers that log or hash a message in the making do; the observations must be
+    prefixes of the final encoding."""
     m = Message()
+    seen = []
     for k, v in fields:
         {"b": m.add_byte, "t": m.add_boolean, "u": m.add_int, "q": m.add_int64, "a": m.add_adaptive_int,
          "s": m.add_string, "l": m.add_list, "m": m.add_mpint}[k](v)
-    return m.asbytes()
+        if peek is not None and peek.random() < 0.5:
+            seen.append(bytes(m) if peek.random() < 0.5 else m.asbytes())
+    out = m.asbytes()
+    if peek is not None:
+        for p in seen:
+            if not out.startswith(p):
+                raise ValueError("intermediate asbytes() %s is not a prefix of the final encoding %s" % (p.hex(), out.hex()))
+    return out
 
 
 def real_decode(Message, kinds, data, check_split=None):
@@ -121,7 +132,7 @@ def run(ctx):
         kinds = "".join(k for k, _ in fields)
         nontriv = any(k in "aslm" for k in kinds)
         try:
-            data = real_encode(Message, fields)
+            data = real_encode(Message, fields, peek=rng if idx % 2 else None)
         except Exception as e:  # writers must accept every well-formed value
             ctx.fail("encode-raises:" + type(e).__name__, {"fields": [tok(f) for f in fields]}, repr(e))
             continue
